@@ -784,7 +784,8 @@ func (e *Enc) rangeNext(x *ssa.Next) {
 	e.r.assume(fmt.Sprintf("(=> %s (=> (not %s) (forall ((k!n %s)) (! (=> (select (%s_dom %s) k!n) (select %s k!n)) :pattern ((select %s k!n))))))", reach, ok, kv[0], s, m, vis, vis))
 	e.setState(ri.visited, "", fmt.Sprintf("(ite %s (store %s %s true) %s)", ok, vis, k, vis))
 	v := e.r.def(e.name(x)+"_v", kv[1], fmt.Sprintf("(select (%s_val %s) %s)", s, m, k))
-	_ = mt
+	e.typeInv(k, mt.Key(), 0)
+	e.typeInv(v, mt.Elem(), 0)
 	e.tuples[x] = []string{ok, k, v}
 }
 
